@@ -40,6 +40,11 @@ Reading
   at all is outside the property: only compared with the model (both reject).
 * "every ... element": the very same object with every instance attribute other than start / end / voice / staff as it
   was (an attribute `_xxx` that did not exist before is book-keeping of the implementation, not of the element).
+* "rescaled to the least common multiple": the multiplier of a part must be the exact quotient lcm / divisions
+  (oracle clause `multiplier`, on the expression of the live source; demanded below 2**53, beyond it only when the
+  proposed finding F-C15-12 `float-multiplier` is registered - numpy's int64 / float64 arithmetic is the documented
+  range of the note arrays).  "sounding notes equal": additionally compared in quarters (`sounding-time`) whenever any
+  part has a sounding note, also when another part has none.
 * "All scores ...": the property quantifies over the STATE of the inputs at the time of the call, whatever history led
   to it: every voice, staff, pitch, tie and divisions value is the one the objects carry then (attributes assigned in
   place after the part was built and after any read-only view of it was computed: `note.staff = 2` ...), and an
@@ -58,15 +63,20 @@ import gen_score as G
 PROPERTY = "C15"
 DRIVER = "drv_c15"
 PROPS = ["PartituraModel.Props.C15", "PartituraModel.Props.C15Ext", "PartituraModel.Props.C15Hist",
-         "PartituraModel.Props.C15Call", "PartituraModel.Props.C15Timeline"]
+         "PartituraModel.Props.C15Call", "PartituraModel.Props.C15Timeline", "PartituraModel.Props.C15Float"]
 TRUSTED = [
     "Part.iter_all() / TimePoint registries as the source of the abstract element lists (their order is what the model "
     "sorts by: time point, class walk of Gen/Classes.lean, insertion); objects that only have an end are read from the "
     "ending registries",
     "Note.duration_tied equals the duration of the note plus those of its tie_next_notes (the recursion over object "
     "references is unfolded by the harness and re-checked on every generated note)",
-    "np.unique / np.lcm.reduce / max(default=1) as sorted distinct values, least common multiple and maximum; "
-    "int(lcm / d) as the exact quotient (float division: exact below 2**53)",
+    "np.unique / np.lcm.reduce / max(default=1) as sorted distinct values, least common multiple (int64: below 2**63) "
+    "and maximum; `lcm / d` of a numpy int64 by a Python int as the IEEE-754 double division of the two numbers "
+    "converted to double (53 bits, round to nearest even) and `int()` as truncation - Model/MergeFloat.lean (toDouble, "
+    "floatQuot), run against the multiplier expression compiled from the live source on (lcm, d) pairs up to 2**63",
+    "harness/translate_c15arith.py (Gen/C15Arith.lean): the ast reading of the multiplier expression, of the uses of "
+    "the multipliers, of `Part(parts[0].id, quarter_duration=lcm)` and of the rescaling in note_array_from_part_list; a "
+    "source it cannot read yields arithOk = false and breaks C15.arith_source",
     "identity of Python objects is represented by a number per object - per element and per Part (merge_parts moves "
     "objects, never copies them; `{id(p): p for p in parts}` keeps the first occurrence of every identity); "
     "the references of an object are the TimedObjects found in its instance attributes (directly or in a list); all its "
@@ -95,7 +105,17 @@ TRUSTED = [
 PARTIAL = [
     "auto mode: disjoint voices are proved under the documented assumption of at most 4 voices per staff "
     "(voices_disjoint_auto_partial); the negation is proved at a witness and proposed as open finding F-C15-6",
-    "int(lcm / d): the float division is trusted to be exact (below 2**53); the theorems use the integer quotient",
+    "int(lcm / d): PROVED exact for every divisor of every lcm below 2**53 (float_multiplier_exact, multipliers_as_coded); "
+    "the other theorems use the integer quotient, so they describe the code for parts whose lcm is below 2**53 - beyond "
+    "it the multiplier of the code is wrong (float_multiplier_witness: divisions 403979, 104607, 282917 merge a quarter "
+    "rest to 29595098618/29595098619 of a quarter; proposed open finding F-C15-12, signature `float-multiplier`, "
+    "fixes/C15-12.md; the repair `lcm // d` is accepted by theorems and model as they are)",
+    "sounding rows = score-level note array NUMBER BY NUMBER is proved when every part has a sounding note "
+    "(sounding_equal + score_sound_all_sounding); a part without notes does not constrain the grid of the score-level "
+    "array, then equality is proved at the same musical time (score_sound_same_musical_time) and the oracle compares "
+    "position / divisions",
+    "the identifier of the new part (that of the first part: new_part_id) is compared with the model but not demanded "
+    "by the oracle - the property does not mention it",
     "a note without voice: the model rejects (mergeParts = none) where staff / auto mode of the code accept parts ALL of "
     "whose notes lack a voice; outside the domain of the property, not generated",
     "load_score_as_part is modelled from the loaded score on (loadScoreAsPart = merge in voice mode); that the loaders "
@@ -120,7 +140,10 @@ RULE = ("corpus + seeded scores / part groups / nested groups / lists of 1-4 par
         "part reachable two or three times, Score histories that put a part into score.parts twice; "
         "x the CALL: reassign left out, rejected values of reassign (both, Voice, '', None, ...) with several parts, one "
         "part, no part, a bad argument; arguments that hold None / a nested list / a tuple / a Score / a string / a "
-        "number at top level, inside the list, inside nested groups; arguments without any part; distinct = distinct "
+        "number at top level, inside the list, inside nested groups; arguments without any part; "
+        "x the ARITHMETIC: the multiplier expression of the live source of merge_parts and note_array_from_part_list on "
+        "the (lcm, d) pairs of division tuples of every magnitude up to lcm < 2**63 (a third beyond 2**53); parts "
+        "without any sounding note (rests only) next to sounding ones in every mode; distinct = distinct "
         "request line; trivial = rejected input or an input outside the domain (a note without voice ...)")
 LEVEL_TEXT = ("Lean 4 theorems over all lists of abstract parts: exact time preservation under lcm rescaling, sounding rows "
               "equal to the rescaled rows of the inputs, voice/staff disjointness across and preservation within parts by "
@@ -144,10 +167,17 @@ LEVEL_TEXT = ("Lean 4 theorems over all lists of abstract parts: exact time pres
               "the insertion order (Props/C15Timeline: timeline_built, merged_timeline, timeline_union, first_part_points), "
               "the divisions are the LEAST common multiple (lcm_least), every other attribute of a transferred object is "
               "untouched and no object is copied or registered twice (attrs_untouched, no_copies); "
+              "the arithmetic as it is coded (Props/C15Float: arith_source regenerated from the sources; `int(lcm / d)` "
+              "modelled as IEEE double division and proved exact for every lcm below 2**53 - float_multiplier_exact, "
+              "multipliers_as_coded - with the counter-example beyond, float_multiplier_witness), the identifier of the new "
+              "part (new_part_id), the score-level note array as it is computed - a part without notes counting with "
+              "divisions 1 - equal to the reference when every part sounds and at the same musical time always "
+              "(score_sound_all_sounding, score_sound_same_musical_time); "
               "the model is tied to merge_parts and "
               "load_score_as_part by a differential run on generated scores and on the multi-part scores of tests/data "
               "(every kept object's identity, class, times, voice, staff, references, fingerprint of all other "
-              "attributes; time points and their quarter; note arrays; accepted / rejected for every form of call).")
+              "attributes; time points and their quarter; identifier of the new part; note arrays; the score-level note "
+              "array with its divisions; the multiplier expression; accepted / rejected for every form of call).")
 
 MODES = ("voice", "staff", "auto")
 STEPS = "CDEFGAB"
@@ -433,6 +463,18 @@ def add_call(rng, d, kind):
     return d
 
 
+def make_silent(d, which):
+    """parts without any sounding note: every note becomes a rest (grace notes and whatever refers to notes go)"""
+    for i in which:
+        pd = d["parts"][i]
+        pd["notes"] = [dict({k: v for k, v in n.items() if k not in ("tie", "step", "alter", "oct", "grace_type")}, kind="rest")
+                       for n in pd["notes"] if n["kind"] != "grace"]
+        for k in ("spans", "beams", "fermatas"):
+            pd.pop(k, None)
+    d["silent"] = sorted(set(d.get("silent", [])) | set(which))
+    return d
+
+
 def gen_case(rng, mode=None, nparts=None, divs=None, **o):
     if divs is None:
         divs = list(rng.choice(DIV_SETS))
@@ -463,6 +505,8 @@ def gen_case(rng, mode=None, nparts=None, divs=None, **o):
             opts["nostaff"] = o["nostaff"]
         parts.append(gen_part(rng, "P%d" % i, dv, bars, voices, staves, opts))
     d = {"k": "merge", "mode": mode or rng.choice(MODES), "arg": gen_shape(rng, n, o.get("single_kind")), "parts": parts}
+    if o.get("silent"):
+        make_silent(d, o["silent"])
     if o.get("shape_kind"):
         leaves = [["P", i] for i in range(n)]
         rng.shuffle(leaves)
@@ -657,6 +701,63 @@ def file_cases(rng, tier):
         yield file_case(f, rng.choice(["group", "parts"]), rng.choice(MODES))
 
 
+def gen_mult(rng, tuples=None, big=True):
+    """the multiplier expression of the live source on division tuples whose least common multiple is far beyond what
+    a generated score reaches: (lcm, d) pairs for every d of the tuple, below 2**53 (exactness is demanded) and - when
+    `big` - between 2**53 and 2**63 (float rounding: compared with the model of IEEE double division)"""
+    pairs, tups = [], []
+    for ds in tuples or []:
+        L = math.lcm(*ds)
+        tups.append(list(ds))
+        pairs += [[L, x] for x in ds]
+    while len(tups) < 12:
+        kind = rng.choice(["small", "medium", "large", "huge"] if big else ["small", "medium", "large"])
+        hi = {"small": 1000, "medium": 2 ** 16, "large": 2 ** 22, "huge": 2 ** 31}[kind]
+        ds = [rng.randrange(1, hi) | (1 if rng.random() < 0.7 else 0) or 1 for _ in range(rng.randint(2, 4))]
+        L = math.lcm(*ds)
+        if L >= 2 ** 63 or (not big and L >= 2 ** 53):
+            continue
+        tups.append(ds)
+        pairs += [[L, x] for x in ds]
+    return {"k": "mult", "mode": "voice", "tuples": tups, "pairs": pairs}
+
+
+MULT_CORPUS = [(403979, 104607, 282917), (264621, 216743, 254243), (1886958959, 1789959961), (480, 960), (3, 4),
+               (94906267, 94906269), (2 ** 26, 3 ** 16), (1, 2 ** 52 + 1)]
+
+
+def eval_mult(d):
+    """`time_multiplier_per_part = [int(lcm / d) ...]`: the expression of the LIVE source of merge_parts and of
+    note_array_from_part_list (compiled from their ast by harness/translate_c15arith.py) against the model
+    Model/MergeFloat.lean; the property demands the exact quotient"""
+    import numpy as np
+    import translate_c15arith as TA
+
+    ev = Eval()
+    f, g = TA.mult_fn(), TA.ref_mult_fn()
+    big = _finding_registered("float-multiplier")
+    nbig = 0
+    for L, x in d["pairs"]:
+        v, e = call(f, np.int64(L), int(x))
+        w, e2 = call(g, np.int64(L), int(x))
+        ev.requests.append("mult %d %d" % (L, x))
+        ev.impl.append("err" if e is not None else W.f_int(v))
+        if e is None and (e2 is not None or int(w) != int(v)):
+            ev.oracle.append("multiplier: note_array_from_part_list computes the multiplier %r for divisions %d of "
+                             "lcm %d where merge_parts computes %r" % (w, x, L, v))
+        if e is not None or int(v) * x != L:
+            if L < 2 ** 53:
+                ev.oracle.append("multiplier: the time multiplier for divisions %d under the common divisions %d is "
+                                 "%r, not the exact quotient %d" % (x, L, v, L // x))
+            elif big:
+                ev.oracle.append("float-multiplier: int(lcm / d) = %r for lcm %d >= 2**53, d = %d: not the exact "
+                                 "quotient %d" % (v, L, x, L // x))
+            nbig += 1
+    ev.key = "mult|%08x" % zlib.crc32(repr(d["pairs"]).encode())
+    ev.info = {"pairs": len(d["pairs"]), "beyond_2_53": sum(1 for L, _ in d["pairs"] if L >= 2 ** 53), "inexact": nbig}
+    return ev
+
+
 def _finding_registered(sig):
     try:
         from core import load_known
@@ -666,7 +767,7 @@ def _finding_registered(sig):
 
 
 def cases(rng, tier):
-    n = {"quick": 34, "thorough": 1700, "search": 5000}.get(tier, 34)
+    n = {"quick": 30, "thorough": 1700, "search": 5000}.get(tier, 30)
     # deterministic block: every class in every part, every mode; the division tuples of the property text
     for mode in MODES:
         yield gen_case(rng, mode, divs=[3, 4], allclasses=True)
@@ -728,6 +829,15 @@ def cases(rng, tier):
     yield add_call(rng, gen_case(rng, divs=[3, 4], small=True), "omit")
     yield add_call(rng, gen_case(rng, divs=[5], single_kind="group"), "omit")
     yield from file_cases(rng, tier)
+    # the arithmetic of the multipliers on divisions far beyond those of a generated score
+    yield gen_mult(rng, MULT_CORPUS)
+    for _ in range({"quick": 3, "thorough": 40}.get(tier, 60)):
+        yield gen_mult(rng)
+    # parts without any sounding note (rests only / nothing) next to sounding ones: the score-level note array ignores
+    # their divisions
+    for mode in MODES:
+        yield gen_case(rng, mode, divs=[rng.choice([2, 4]), rng.choice([3, 5, 7])], small=True, silent=[1])
+        yield gen_case(rng, mode, divs=[5, 2, 3], small=True, silent=[0])
     overflow = _finding_registered("auto-voice-overflow")
     for i in range(n):
         r = rng.random()
@@ -748,6 +858,8 @@ def cases(rng, tier):
             add_score_ops(rng, c)
         else:
             c = gen_case(rng)
+        if rng.random() < 0.08 and len(c["parts"]) > 1:
+            make_silent(c, [rng.randrange(len(c["parts"]))])
         if rng.random() < 0.35:
             add_history(rng, c)
         r = rng.random()
@@ -1291,6 +1403,8 @@ def evaluate(d):
     import partitura.score as S
     from partitura.utils.music import note_array_from_part_list
 
+    if d.get("k") == "mult":
+        return eval_mult(d)
     ev = Eval()
     mode = d["mode"]
     op = "merge"
@@ -1415,6 +1529,8 @@ def evaluate(d):
         res_elems = list(res.iter_all())
         ev.impl.append(W.f_tuple(W.f_int(L), W.f_list(lambda e: f_elem(e, oid, S), res_elems),
                                  W.f_list(lambda tp: W.f_int(tp.t), res._points)))
+        ev.requests.append("newid %s %s" % (rtok, shape_txt))
+        ev.impl.append("-" if res.id is None else str(res.id))
         ev.requests.append("quarters %s %s" % (rtok, shape_txt))
         ev.impl.append(W.f_list(lambda tp: W.f_opt(W.f_int, tp.quarter), res._points))
         res_tails = end_only_objects(res)
@@ -1447,6 +1563,7 @@ def evaluate(d):
             rows.sort()
             ev.impl.append(W.f_list(lambda r: W.f_tuple(W.f_int(r[2]), W.f_int(r[0]), W.f_int(r[3]), W.f_int(r[1]), W.f_int(r[4]), W.f_int(r[5])), rows))
     ref_rows = None
+    sna = e3 = None
     all_sounding = all(len(fresh[i].notes_tied) > 0 for i in order)
     bad_arg = d.get("k", "merge") == "merge" and has_bad(d["arg"])
     if order and not bad_arg and all_sounding and pr.outside is None and all(len(fresh[i]._quarter_durations) == 1 for i in order):
@@ -1457,6 +1574,24 @@ def evaluate(d):
         else:
             ref_rows = sorted((int(r["onset_div"]), int(r["pitch"]), int(r["duration_div"])) for r in sna)
             ev.impl.append(W.f_list(lambda r: W.f_tuple(W.f_int(r[0]), W.f_int(r[2]), W.f_int(r[1])), ref_rows))
+
+    ref_quarters = None
+    if order and not bad_arg and pr.outside is None and all(len(fresh[i]._quarter_durations) == 1 for i in order) \
+            and any(len(fresh[i].notes_tied) > 0 for i in order):
+        # the score-level note array as it is computed, whether or not every part has a sounding note: its own common
+        # divisions (column divs_pq) and its rows
+        sna3, e5 = (sna, e3) if (sna is not None or e3 is not None) else call(note_array_from_part_list, [fresh[i] for i in order])
+        ev.requests.append("scoreref %s %s" % (rtok, shape_txt))
+        if e5 is not None:
+            ev.impl.append("err:score_note_array")
+        else:
+            dq = sorted({int(r["divs_pq"]) for r in sna3})
+            rws = sorted((int(r["onset_div"]), int(r["pitch"]), int(r["duration_div"])) for r in sna3)
+            ev.impl.append(W.f_tuple(W.f_int(dq[0] if len(dq) == 1 else -1),
+                                     W.f_list(lambda r: W.f_tuple(W.f_int(r[0]), W.f_int(r[2]), W.f_int(r[1])), rws)))
+            if len(dq) == 1 and dq[0] > 0:
+                ref_quarters = sorted((Fraction(int(r["onset_div"]), dq[0]), int(r["pitch"]),
+                                       Fraction(int(r["duration_div"]), dq[0])) for r in sna3)
 
     # ---- oracle (independent of the model)
     valid_mode = mode in MODES
@@ -1498,6 +1633,19 @@ def evaluate(d):
         if e4 is None:
             ref_score = sorted((int(r["onset_div"]), int(r["pitch"]), int(r["duration_div"])) for r in sna2)
     ev.oracle += oracle(d, parts, order, snap, res, res_elems, mode, pr.fp_before, ref_rows, S, np, ref_score)
+    if ref_quarters is not None and len(order) > 1 and not any(res is p for p in parts):
+        # sounding notes at the same MUSICAL time as in the score-level note array (also when a part without notes makes
+        # the two grids differ: position / divisions is compared)
+        na4, e6 = call(res.note_array)
+        qd = list(res._quarter_durations)
+        if e6 is None and len(qd) == 1 and int(qd[0]) > 0:
+            L = int(qd[0])
+            mine = sorted((Fraction(int(r["onset_div"]), L), int(r["pitch"]), Fraction(int(r["duration_div"]), L)) for r in na4)
+            if mine != ref_quarters:
+                diff = [x for x in mine if x not in ref_quarters][:3], [x for x in ref_quarters if x not in mine][:3]
+                ev.oracle.append("sounding-time: (onset, pitch, duration) in quarters of the merged part differ from the "
+                                 "score-level note array: only merged %r, only score %r" % (
+                                     [tuple(map(str, x)) for x in diff[0]], [tuple(map(str, x)) for x in diff[1]]))
     return ev
 
 
@@ -1729,6 +1877,10 @@ def final_order(spec):
 def shrink(d):
     import copy
 
+    if d.get("k") == "mult":
+        for i in range(len(d["pairs"])):
+            yield dict(d, pairs=[d["pairs"][i]], tuples=[])
+        return
     if d.get("k", "merge") != "merge":
         # a file of the test data is a case as it is; its history may get shorter
         for key in ("edits", "ops"):
@@ -1810,7 +1962,8 @@ def shrink(d):
 def distribution(descs, results):
     from collections import Counter
 
-    files = [d for d in descs if d.get("k", "merge") != "merge"]
+    mults = [d for d in descs if d.get("k") == "mult"]
+    files = [d for d in descs if d.get("k", "merge") not in ("merge", "mult")]
     descs = [d for d in descs if d.get("k", "merge") == "merge"]
     modes = Counter(str(d["mode"]) for d in descs)
     nparts = Counter(len(d["parts"]) for d in descs)
@@ -1840,4 +1993,8 @@ def distribution(descs, results):
             "call_kinds": dict(Counter(d["callkind"] for d in descs if d.get("callkind"))),
             "reassign_left_out": sum(1 for d in descs if d.get("omit")),
             "file_cases": dict(Counter(d["via"] for d in files)), "files": len({d["file"] for d in files}),
+            "multiplier_pairs": sum(len(d["pairs"]) for d in mults),
+            "multiplier_pairs_with_lcm_beyond_2_53": sum(1 for d in mults for L, _ in d["pairs"] if L >= 2 ** 53),
+            "multiplier_pairs_inexact_in_float": sum((r.get("info") or {}).get("inexact", 0) for r in results),
+            "parts_without_sounding_notes": sum(len(d.get("silent") or []) for d in descs),
             "rejected_inputs": sum(1 for r in results if r.get("key") is None)}
